@@ -287,3 +287,51 @@ def stmt_of(node):
     while n is not None and not isinstance(n, ast.stmt):
         n = parent(n)
     return n
+
+
+# ------------------------------------------------------------------ rename-invariant text
+def inline(fn_node, expr, depth=6, _stack=()):
+    """Copy of `expr` in which every local that has exactly one definition in the function is replaced by that
+    definition (recursively).  The unparsed result does not depend on the names of such locals."""
+    import copy
+
+    class T(ast.NodeTransformer):
+        def visit_Name(self, n):
+            if isinstance(n.ctx, ast.Load) and depth > 0 and n.id not in _stack and not is_param(fn_node, n.id):
+                vals = assigned_values(fn_node, n.id)
+                if len(vals) == 1 and isinstance(vals[0], ast.expr):
+                    v = vals[0]
+                    if isinstance(v, ast.Call) and isinstance(v.func, ast.Name) and v.func.id in ("<iter>", "<with>"):
+                        return n
+                    if n.id in names_in(v):
+                        return n
+                    return inline(fn_node, v, depth - 1, _stack + (n.id,))
+            return n
+
+        def visit_Lambda(self, n):
+            return n
+
+    return T().visit(copy.deepcopy(expr))
+
+
+def itext(fn_node, expr):
+    """Rename-invariant text of an expression (single-definition locals inlined)."""
+    try:
+        return ast.unparse(inline(fn_node, expr))
+    except Exception:
+        return ast.unparse(expr)
+
+
+def assigned_from(fn_node, pred):
+    """Names of locals assigned from a value satisfying pred(value_expr)."""
+    out = []
+    for n in walk_fn(fn_node):
+        if isinstance(n, ast.Assign) and pred(n.value):
+            for t in n.targets:
+                if isinstance(t, ast.Name):
+                    out.append(t.id)
+                elif isinstance(t, (ast.Tuple, ast.List)):
+                    out += [e.id for e in t.elts if isinstance(e, ast.Name)]
+        elif isinstance(n, ast.AnnAssign) and n.value is not None and pred(n.value) and isinstance(n.target, ast.Name):
+            out.append(n.target.id)
+    return out
